@@ -96,7 +96,7 @@ func runC09(tier string) int {
 	}
 	defer os.RemoveAll(dir)
 	cfg := parser.FontConfig{DefaultFontID: "f1", Fonts: map[string]parser.Fonts{
-		"f1": {Widths: map[string]int{" ": 1, "default": 2}, MaxLineLength: 5, NumLines: 2, CursorOverlapWidth: 0},
+		"f1": {Widths: map[string]int{" ": 1, "p": 0, "default": 2}, MaxLineLength: 5, NumLines: 2, CursorOverlapWidth: 0}, // 'p' is 0 pixels wide: a word may have no width at all
 	}}
 	b, _ := json.Marshal(cfg)
 	fpath := filepath.Join(dir, "fonts.json")
